@@ -73,6 +73,13 @@ fn items(tier: Tier) -> Vec<Item> {
                 v.push(Item { degree, ratio, kind, pre: None, ramp: false, pre2: None, tail: true });
             }
         }
+        // a trim of less than a billionth / a millionth after two chunks (clock-drift tracking):
+        // the stream runs at the new ratio, however small the change
+        for x2 in [1.0 + 8.0e-10, 1.0 - 9.0e-7] {
+            for kind in [Kind::FI, Kind::FO] {
+                v.push(Item { degree, ratio: 1.0 * x2, kind, pre: Some((1.0, 1.1, 1.0)), ramp: false, pre2: Some(x2), tail: false });
+            }
+        }
         // strong decimation (more than 7 input frames per output frame: the carried position lies
         // further back than the 16-frame history), two chunks, then a higher ratio - by half a
         // per mille, by 40 %
@@ -159,6 +166,12 @@ fn one<T: Flt>(acc: &mut Acc, item: &Item, chunk: usize, journal: Option<&Journa
         // in f32 the input itself is rounded: compare with the polynomial through the rounded
         // samples only up to the conditioning of the interpolation formula
         let s = resample_all_x::<T>(&cfg, &x, &Opts { pre: rel, ramp, pre2: pre2.map(|x| (x, 2)), masked_tail: item.tail, ..Opts::default() })?;
+        if let (Some(fr), Some(x2), Some((r0, _, _)), true) = (s.final_ratio, pre2, item.pre, k == 0) {
+            // the ratio the stream ended on is the one requested last, bit for bit
+            if s.calls.len() > 2 && fr.to_bits() != (r0 * x2).to_bits() {
+                fail(acc, &cfg, "ratio-in-use-is-not-the-requested-one", format!("after set_resample_ratio_relative({:?}, false) and {} more calls the resampler runs at {:?}, requested {:?}", x2, s.calls.len() - 2, fr, r0 * x2), format!("T={} chunk={}", T::NAME, chunk));
+            }
+        }
         acc.evals += 1;
         let n = s.out.len().min(tau.len());
         let mut worst = 0.0f64;
